@@ -296,15 +296,19 @@ PROPS['C11'] = dict(
     trusted_base=TRUSTED_COMMON + ["IdealCL issuance (DESIGN §4 v): blinded-secret and signature correctness proofs verify iff built for that key / nonce / values / blinding — assumed, validated on every generated pairing and alteration"],
 )
 PROPS['C14'] = dict(
-    lean_targets=['AnonModel.Props.C14', 'AnonModel.Props.C14Doc'],
+    lean_targets=['AnonModel.Props.C14', 'AnonModel.Props.C14Doc', 'AnonModel.Props.C14Env'],
     required_theorems=['C14_to_from', 'C14_to_from_raw', 'C14_from_to', 'C14_from_to_from', 'C14_to_refuses_iff', 'C14_from_refuses_iff', 'C14_refuses_boolean_entry',
                        'C14_doc_reserialise', 'C14_doc_find', 'C14_doc_signature_iff', 'C14_doc_spellings', 'C14_doc_new_credential_survives', 'C14_doc_derived_credential_survives',
-                       'C14_doc_first_only', 'C14_doc_foreign_only', 'C14_doc_conversion_of_stored', 'C14_doc_conversion_refused'],
+                       'C14_doc_first_only', 'C14_doc_foreign_only', 'C14_doc_conversion_of_stored', 'C14_doc_conversion_refused',
+                       'C14_env_library_version', 'C14_env_library_valid', 'C14_env_library_presentation_valid', 'C14_env_valid_iff', 'C14_env_unknown_first_refused', 'C14_env_first_decides_version',
+                       'C14_env_tail_order_irrelevant', 'C14_env_meta_valid', 'C14_env_conversion_refused_iff', 'C14_env_stored_library_credential'],
     families=[dict(name='c14')], default_dir='exact', spec_is_model=['c14'],
     fam_theorem={'c14': 'C14_to_from_computed / C14_from_to (conversion functions) and the refusal characterisations',
+                 'c14.envelope': 'C14_env_valid_iff / C14_env_conversion_refused_iff / C14_env_library_valid (which @context / type / issuanceDate make a well-formed document; version read from the first context)',
                  'c14.proof_doc': 'C14_doc_find / C14_doc_signature_iff / C14_doc_reserialise (which proof of the stored document the getters find, in every spelling of the proof member)'},
-    rule="the proof member of the stored document (op proof_doc, Model/ProofDoc): ~400 (quick) / ~3,100 (thorough) documents whose proof member is a single value or an array of 0-4 entries drawn from real AnonCreds proofs of the three kinds (credential signature, credential presentation, presentation) under both purposes, 15 other values (foreign proof, {}, number, string, null, true, and nine near misses of an AnonCreds proof: other / missing cryptosuite, missing or mistyped method, bad base64, unknown msgpack tag, missing multibase header, other type, unknown purpose) and nested arrays: the signature / presentation proof found (identified by value), the document written back (canonical), and conversion possible iff a signature proof is found; every converted credential also as the document a holder stores, in four spellings of the proof member (as emitted, array of one, single object, beside a foreign proof), converted back and compared field by field (curve-point excess counters stripped); a W3C-issued credential presented in both formats as live object and as stored document; real credentials (revocable or not, data model 1.1 and 2.0) with value pools: text, numbers, zero-padded and signed numbers, both 32-bit boundaries and their out-of-range neighbours, unicode digits, empty string, space-prefixed, exponent form, emoji, random padded numbers: legacy -> W3C -> legacy -> W3C; subject and returned values compared exactly with the model; oracles on the real objects: schema / definition / registry ids, signature, correctness proof, rev_reg, witness identical after the round trip, every encoded value identical, second trip identical; W3C-side subjects (number as string, boundaries, boolean marker, empty string); refusals: missing AnonCreds context, missing W3C type, v1.1 without issuanceDate, presentation proof instead of signature proof, registry id without witness, empty values, invalid schema id; a credential issued in W3C form, converted, presented in legacy form and verified",
+    rule="the envelope of the stored document (op w3c_envelope, Model/Envelope): ~550 (quick) / ~3,250 (thorough) credential and presentation documents whose @context list, type set and issuanceDate are edited: the two library forms, every permutation, each member dropped, each member replaced by 8 near-miss URIs (trailing slash, http, case, fragment, other version) and 9 non-URI values (vocabulary without '#', with an extra key, {}, string, number, null, nested array, true, space-prefixed), type sets (missing, case, trailing space, empty, repeated), and a mostly-valid random stream (library form with shuffled tail and up to two inserted entries; one in three from scratch): validity (credential_from_w3c / W3C verify_presentation of an honest presentation: true or error, never false or crash) and the version read; the proof member of the stored document (op proof_doc, Model/ProofDoc): ~400 (quick) / ~3,100 (thorough) documents whose proof member is a single value or an array of 0-4 entries drawn from real AnonCreds proofs of the three kinds (credential signature, credential presentation, presentation) under both purposes, 15 other values (foreign proof, {}, number, string, null, true, and nine near misses of an AnonCreds proof: other / missing cryptosuite, missing or mistyped method, bad base64, unknown msgpack tag, missing multibase header, other type, unknown purpose) and nested arrays: the signature / presentation proof found (identified by value), the document written back (canonical), and conversion possible iff a signature proof is found; every converted credential also as the document a holder stores, in four spellings of the proof member (as emitted, array of one, single object, beside a foreign proof), converted back and compared field by field (curve-point excess counters stripped); a W3C-issued credential presented in both formats as live object and as stored document; real credentials (revocable or not, data model 1.1 and 2.0) with value pools: text, numbers, zero-padded and signed numbers, both 32-bit boundaries and their out-of-range neighbours, unicode digits, empty string, space-prefixed, exponent form, emoji, random padded numbers: legacy -> W3C -> legacy -> W3C; subject and returned values compared exactly with the model; oracles on the real objects: schema / definition / registry ids, signature, correctness proof, rev_reg, witness identical after the round trip, every encoded value identical, second trip identical; W3C-side subjects (number as string, boundaries, boolean marker, empty string); refusals: missing AnonCreds context, missing W3C type, v1.1 without issuanceDate, presentation proof instead of signature proof, registry id without witness, empty values, invalid schema id; a credential issued in W3C form, converted, presented in legacy form and verified",
     trusted_base=TRUSTED_COMMON + ["identifiers, signature material and revocation data are copied field by field by the Rust code and are outside the model: compared on real objects by the harness oracles only",
+                                   "which strings are URIs (URI pattern) and which context strings equal the three named ones is decided by the Rust code: Model/Envelope takes the classification as given and the correspondence checks it on 8 near-miss URIs and 9 other values",
                                    "which JSON objects deserialise as an AnonCreds data-integrity proof is decided by serde-derived code: Model/ProofDoc takes the classification as given (Scalar.anon / Scalar.other) and the correspondence checks it on real proofs and nine near misses"],
 )
 PROPS['C15'] = dict(
